@@ -100,6 +100,7 @@ func buildGraph(p *Prog, fs *FuncSrc, maxDepth int, noInline map[string]bool) *G
 			idx++
 		}
 	}
+	b.initNamedResults(fs.Decl.Type)
 	b.stmt(fs.Decl.Body)
 	if b.cur != nil {
 		// falling off the end: implicit return (no results)
@@ -139,6 +140,7 @@ func buildLitGraph(p *Prog, fs *FuncSrc, lit *ast.FuncLit, maxDepth int, noInlin
 			idx++
 		}
 	}
+	b.initNamedResults(lit.Type)
 	b.stmt(lit.Body)
 	if b.cur != nil {
 		n := b.newNode(NReturn, lit.End())
@@ -545,6 +547,53 @@ func (b *Builder) declStmt(s *ast.DeclStmt) {
 	}
 }
 
+// initNamedResults declares the named results of the function being built with their zero values.
+func (b *Builder) initNamedResults(ft *ast.FuncType) {
+	if ft == nil || ft.Results == nil {
+		return
+	}
+	for _, f := range ft.Results.List {
+		for _, nm := range f.Names {
+			if nm.Name == "_" {
+				continue
+			}
+			if o := b.info.Defs[nm]; o != nil {
+				b.assignVar(b.declVar(o), b.zeroOf(o.Type()), nm.Pos())
+			}
+		}
+	}
+}
+
+// namedResults: the variables of the named results of the current function (nil if unnamed).
+func (b *Builder) namedResults() []*Term {
+	var ft *ast.FuncType
+	switch {
+	case b.inst.Lit != nil:
+		ft = b.inst.Lit.Type
+	case b.inst.Fn != nil:
+		if fs := b.P.Funcs[b.inst.Fn.Origin()]; fs != nil {
+			ft = fs.Decl.Type
+		}
+	}
+	if ft == nil || ft.Results == nil {
+		return nil
+	}
+	var out []*Term
+	for _, f := range ft.Results.List {
+		if len(f.Names) == 0 {
+			return nil
+		}
+		for _, nm := range f.Names {
+			if o := b.info.Defs[nm]; o != nil && nm.Name != "_" {
+				out = append(out, varTerm(b.useVar(o)))
+			} else {
+				out = append(out, tZero)
+			}
+		}
+	}
+	return out
+}
+
 func (b *Builder) zeroOf(t types.Type) *Term {
 	if t == nil {
 		return tZero
@@ -687,7 +736,10 @@ func (b *Builder) returnStmt(s *ast.ReturnStmt) {
 	} else {
 		nres = len(b.inst.Results)
 	}
-	if len(s.Results) == 1 && nres > 1 {
+	if len(s.Results) == 0 && nres > 0 {
+		// a bare return of a function with named results returns their current values
+		ts = b.namedResults()
+	} else if len(s.Results) == 1 && nres > 1 {
 		ts = b.multi(s.Results[0], nres)
 	} else {
 		for _, e := range s.Results {
@@ -1089,6 +1141,7 @@ func (b *Builder) inlineFunc(fs *FuncSrc, recv *Term, args []*Term, pos token.Po
 		}
 	}
 	b.emit(n)
+	b.initNamedResults(fs.Decl.Type)
 	b.stmt(fs.Decl.Body)
 	b.jump(inst.exit)
 	b.start(inst.exit)
@@ -1145,6 +1198,7 @@ func (b *Builder) inlineLit(lit *ast.FuncLit, args []*Term, pos token.Pos, nres 
 		}
 	}
 	b.emit(n)
+	b.initNamedResults(lit.Type)
 	b.stmt(lit.Body)
 	b.jump(inst.exit)
 	b.start(inst.exit)
